@@ -56,7 +56,7 @@ def visN (outs : List (NType × NOut)) : List (List (String × String)) := outs.
     `alltypes`: what the all-in-one run processes (for the separate → all-in-one → back history) -/
 def genhistCase (id : String) (payload : List Sexp) : List String :=
   let p := Sexp.list (.atom "p" :: payload)
-  let fl : NFlags := { getset := (p.field? "flags").any (·.hasFlag "getset"), json := (p.field? "flags").any (·.hasFlag "json") }
+  let fl := parseNFlags p
   let aio := (atoms (p.field? "mode")).headD "sep" == "aio"
   let aioName := (atoms (p.field? "aio")).headD "t.shootnew.go"
   let parse (k : String) : Option (List NType) := ((p.field? k).map Sexp.args |>.getD []).mapM parseNType
